@@ -751,6 +751,7 @@ fn pick_opts(r: &mut Rng, dialect_sensitive: bool) -> Opts {
         format: r.below(4) == 0,
         sig: r.below(5) == 0,
         ansi: r.below(6) == 0,
+        color: r.below(3) == 0,
     }
 }
 
@@ -953,6 +954,7 @@ impl<'a> Gen<'a> {
                     format: false,
                     sig: true,
                     ansi: false,
+                    color: false,
                 },
             }),
             Call::plain(Op::Compile {
@@ -991,6 +993,7 @@ impl<'a> Gen<'a> {
                     format: r.below(5) == 0,
                     sig: r.below(6) == 0,
                     ansi: false,
+                    color: false,
                 };
                 Call::plain(if staged {
                     Op::Staged { src: src.clone(), opts }
